@@ -438,4 +438,83 @@ theorem mrun_env_raw {l l' : State} {p : List Stmt} (h : MRun l p l') (k : Nat)
     simp only [withTasks] at e1 e2 ⊢
     rw [e2, e1]
 
+/-- `mrun_rel` with the two facts the placement of single statements needs: the reference image only grows, and every
+emitting statement of the flattened program stands with its reference bytes at its reference address -/
+theorem mrun_placed {l l' : State} {p : List Stmt} (h : MRun l p l') : ∀ (P : List Task) (c : Option Nat) (im : Img),
+    Rel l (P ++ l.tasks) c im → (∀ s ∈ p, s.wf = true) →
+    ∃ im', (∀ r, pass2 c im (p ++ r) = pass2 (cursorAfter c p) im' r) ∧ Rel l' (P ++ l'.tasks) (cursorAfter c p) im' ∧
+      (∀ a, (im.get a).isSome = true → im'.get a = im.get a) ∧
+      (∀ q s r, p = q ++ s :: r → s.emits = true →
+        ∃ x, cursorAfter c q = some x ∧ ∀ i, i < (bytes x s).length → im'.get (x + i) = (bytes x s)[i]?) := by
+  induction h with
+  | nil l =>
+    intro P c im hr _
+    exact ⟨im, fun r => rfl, hr, fun _ _ => rfl, fun q s r hp _ => by cases q <;> cases hp⟩
+  | @step l l1 l' s0 p hs _ ih =>
+    intro P c im hr hwf
+    obtain ⟨im1, e1, r1, m1⟩ := step_rel_frame P l l1 s0 c im hr (hwf s0 List.mem_cons_self) hs
+    obtain ⟨im2, e2, r2, m2, pl2⟩ := ih P (next c s0) im1 r1 (fun x hx => hwf x (List.mem_cons_of_mem _ hx))
+    refine ⟨im2, fun r => ?_, r2, fun a ha => ?_, fun q s r hp hse => ?_⟩
+    · simp only [List.cons_append, cursorAfter]; rw [e1, e2]
+    · have h1 := m1 a ha
+      rw [m2 a (by rw [h1]; exact ha), h1]
+    · cases q with
+      | nil =>
+        simp only [List.nil_append, List.cons.injEq] at hp
+        obtain ⟨rfl, rfl⟩ := hp
+        have e0 := e1 []
+        cases c with
+        | none =>
+          exfalso
+          cases s0 <;> first | (simp [pass2] at e0; done) | cases hse
+        | some x =>
+          have him1 : im1 = im.put x (bytes x s0) := by
+            cases s0 with
+            | raw bs => exact (Option.some.inj e0).symm
+            | emit len deps final => exact (Option.some.inj e0).symm
+            | align n => exact (Option.some.inj e0).symm
+            | addr a => cases hse
+            | label n => cases hse
+            | const n d v => cases hse
+          refine ⟨x, rfl, fun i hi => ?_⟩
+          have h2 : im1.get (x + i) = (bytes x s0)[i]? := by
+            rw [him1, get_put_inside _ _ _ _ (by omega) (by omega)]
+            congr 1; omega
+          rw [m2 (x + i) (by rw [h2, isSome_getElem?]; simpa using hi), h2]
+      | cons s1 q =>
+        simp only [List.cons_append, List.cons.injEq] at hp
+        obtain ⟨rfl, hp⟩ := hp
+        exact pl2 q s r hp hse
+  | @file l l1 l2 l' pc p _ hrun _ ih1 ih2 =>
+    intro P c im hr hwf
+    have hr0 : Rel (withTasks [] l) ((P ++ l.tasks) ++ (withTasks [] l).tasks) c im := by
+      simp only [withTasks, List.append_nil]; exact hr.congr rfl rfl
+    obtain ⟨im1, e1, r1, m1, pl1⟩ := ih1 (P ++ l.tasks) c im hr0 (fun x hx => hwf x (List.mem_append_left _ hx))
+    have r1' : Rel (withTasks [] l1) ((P ++ l.tasks) ++ l1.tasks) (cursorAfter c pc) im1 := r1.congr rfl rfl
+    obtain ⟨r2, _, _⟩ := runTasks_rel_frame (P ++ l.tasks) l1.tasks _ l2 _ im1 r1' hrun
+    have r2' : Rel (withTasks l.tasks l2) (P ++ (withTasks l.tasks l2).tasks) (cursorAfter c pc) im1 := r2.congr rfl rfl
+    obtain ⟨im2, e2, r3, m2, pl2⟩ := ih2 P (cursorAfter c pc) im1 r2' (fun x hx => hwf x (List.mem_append_right _ hx))
+    refine ⟨im2, fun r => ?_, by rw [cursorAfter_append]; exact r3, fun a ha => ?_, fun q s r hp hse => ?_⟩
+    · rw [List.append_assoc, e1, e2, cursorAfter_append]
+    · have h1 := m1 a ha
+      rw [m2 a (by rw [h1]; exact ha), h1]
+    · rcases List.append_eq_append_iff.mp hp with ⟨a', rfl, hp'⟩ | ⟨c', hpc, hsr⟩
+      · -- the statement lies behind the included file
+        obtain ⟨x, hx, hb⟩ := pl2 a' s r hp' hse
+        exact ⟨x, by rw [cursorAfter_append]; exact hx, hb⟩
+      · cases c' with
+        | nil =>
+          simp only [List.append_nil] at hpc
+          simp only [List.nil_append] at hsr
+          subst hpc
+          obtain ⟨x, hx, hb⟩ := pl2 [] s r hsr.symm hse
+          exact ⟨x, hx, hb⟩
+        | cons s1 c'' =>
+          simp only [List.cons_append, List.cons.injEq] at hsr
+          obtain ⟨rfl, _⟩ := hsr
+          obtain ⟨x, hx, hb⟩ := pl1 q s c'' hpc hse
+          refine ⟨x, hx, fun i hi => ?_⟩
+          have h2 := hb i hi
+          rw [m2 (x + i) (by rw [h2, isSome_getElem?]; simpa using hi), h2]
+
 end Trion.Layout
